@@ -7,6 +7,5 @@ INVARIANT TypeOK
 INVARIANT InvRepr
 INVARIANT InvLinkCond
 INVARIANT InvContractHomotopyAlg
-INVARIANT InvUnblocked
 INVARIANT InvB0Alg
 CHECK_DEADLOCK FALSE
